@@ -184,6 +184,10 @@ class Renderer:
             return self.lit(e)
         if k == 'raw':
             return e[1]
+        if k == 'un':     # a name that is defined nowhere
+            if self.mode == 'dict':
+                return "'[%s]'!%s" % (self.p.file(host[0]), e[1])
+            return e[1]
         if k == 'arr':    # array literal {1,2;3,4}
             return '{%s}' % ';'.join(','.join(
                 self.lit(['n', v]) if not isinstance(v, str) else
